@@ -104,6 +104,48 @@ Theorem C35_oracle_no_retry_after_permanent : forall c sb q o,
      last_out (primary_calls (r_op q) (o_calls o)) = Some IOk).
 Proof. exact check_op_head. Qed.
 
+(* liveness, loop level: if the attempts fail transiently k times and then succeed, and the backoff
+   policy grants at least k retries, the loop returns Ok after exactly k retries *)
+Theorem C35_retry_live : forall (S : Type) (att : S -> S * aout) (good : S -> Prop) (rank : S -> nat),
+  (forall s, good s -> rank s = 0 -> snd (att s) = AOk) ->
+  (forall s k, good s -> rank s = Datatypes.S k ->
+     snd (att s) = AErr ETrans /\ good (fst (att s)) /\ rank (fst (att s)) = k) ->
+  forall k b pa f s, good s -> rank s = k -> k <= b -> 1 <= pa ->
+  exists s', retry_loop S att b pa f s = (s', ROk, f + k).
+Proof. exact retry_live. Qed.
+
+(* liveness, closed: any k transient faults (before / after partial data / after the full effect) followed
+   by correct behaviour, k within the budget: Load returns Ok with exactly the error-free data *)
+Theorem C35_load_live : forall c s n meta len off b d k,
+  lead (s_script s) = Some k -> k <= b ->
+  sget n (s_store s) = Some d -> memN n (s_breaker s) = false ->
+  let o := snd (run_op c s (mkreq (OLoad n meta len off) b false)) in
+  o_res o = ROk /\ o_data o = slice d len off /\ o_succ o = match k with O => None | _ => Some k end.
+Proof. exact load_live. Qed.
+
+(* ... and Save stores the complete content and nothing else changes, whatever the cleanup Removes of
+   the failed attempts did (atomic or not) *)
+Theorem C35_save_live : forall c s n d b k,
+  lead_save (atomic c) (s_script s) = Some k -> k <= b ->
+  let o := snd (run_op c s (mkreq (OSave n d) b false)) in
+  o_res o = ROk /\ sget n (o_store o) = Some d /\
+  (forall x, x <> n -> sget x (s_store s) = sget x (o_store o)) /\
+  o_succ o = match k with O => None | _ => Some k end.
+Proof. exact save_live. Qed.
+
+(* context cancelled during the back-off sleep: same inner effects and oracle verdict as the run stopped
+   by the budget; never turns a failure into Ok or vice versa *)
+Theorem C35_cancel_in_sleep : forall c s q cz,
+  check_op c (s_store s) q (snd (run_op_c c s (q, cz))) = check_op c (s_store s) q (snd (run_op c s q)) /\
+  o_store (snd (run_op_c c s (q, cz))) = o_store (snd (run_op c s q)) /\
+  (cz = false -> run_op_c c s (q, cz) = run_op c s q) /\
+  (o_res (snd (run_op_c c s (q, cz))) = ROk <-> o_res (snd (run_op c s q)) = ROk).
+Proof. exact run_op_c_oracle. Qed.
+
+Print Assumptions C35_retry_live.
+Print Assumptions C35_load_live.
+Print Assumptions C35_save_live.
+Print Assumptions C35_cancel_in_sleep.
 Print Assumptions C35_retry_op_correct.
 Print Assumptions C35_retry_seq_correct_atomic.
 Print Assumptions C35_retry_seq_correct.
